@@ -36,6 +36,21 @@ theorem identity_valid (ch st co : Int) (h : DecArgsOk ch st co) :
     have := List.mem_range.1 hm
     left; omega
 
+/-- For sensible arguments `mapping_matrix_get_size` is zero exactly when the cells exceed 65004 bytes. -/
+theorem matrixSizeNonzero_iff (rows cols : Int) (hr : 0 ≤ rows ∧ rows ≤ 255) (hc : 0 ≤ cols ∧ cols ≤ 255) :
+    matrixSizeNonzero rows cols = true ↔ ¬ rows * cols * 2 > 65004 := by
+  unfold matrixSizeNonzero matrixGetSize
+  have hnn : 0 ≤ rows * cols := Int.mul_nonneg hr.1 hc.1
+  rw [if_neg (by omega)]
+  by_cases hbig : rows * cols * 2 > 65004
+  · simp [hbig]
+  · rw [if_neg hbig]
+    simp only [hbig, not_false_eq_true, iff_true, decide_eq_true_eq]
+    generalize rows * cols = p at hnn hbig
+    unfold alignI
+    simp only
+    split <;> split <;> omega
+
 /-- `opus_projection_decoder_init` as a decision list. -/
 theorem decoderInit_eq (innerOk : Bool) (ch st co : Int) (dm : Bytes) (size : Int) :
     decoderInit innerOk ch st co dm size =
@@ -62,11 +77,7 @@ theorem decoderInit_eq (innerOk : Bool) (ch st co : Int) (dm : Bytes) (size : In
       · rw [h2, if_neg (by omega)]
         simp only
         have hms : matrixSizeNonzero ch (st + co) = true ↔ ¬ (st + co) * ch * 2 > 65004 := by
-          unfold matrixSizeNonzero
-          simp only [Bool.and_eq_true, Bool.not_eq_true', Bool.or_eq_false_iff, decide_eq_false_iff_not]
-          constructor
-          · intro h; rw [Int.mul_comm (st + co) ch]; exact h.2
-          · intro h; refine ⟨⟨by omega, by omega⟩, ?_⟩; rw [Int.mul_comm ch (st + co)]; exact h
+          rw [matrixSizeNonzero_iff ch (st + co) (by omega) (by omega), Int.mul_comm ch (st + co)]
         by_cases hbig : (st + co) * ch * 2 > 65004
         · have : matrixSizeNonzero ch (st + co) = false := by
             cases hq : matrixSizeNonzero ch (st + co)
@@ -171,9 +182,10 @@ theorem decoderCreate_outcomes (innerOk : Bool) (ch st co : Int) (dm : Bytes) (s
     obtain ⟨ha, hs, _, hsz, _, _, _⟩ := (hok pd).1 h
     unfold DecArgsOk at ha
     have : decoderSizeNonzero ch st co = true := by
-      unfold decoderSizeNonzero matrixSizeNonzero
-      simp only [Bool.and_eq_true, Bool.not_eq_true', Bool.or_eq_false_iff, decide_eq_false_iff_not]
-      refine ⟨⟨⟨by omega, by omega⟩, by omega⟩, ⟨by omega, by omega⟩, by omega⟩
+      unfold decoderSizeNonzero
+      rw [(matrixSizeNonzero_iff (st + co) ch (by omega) (by omega)).2 (by omega)]
+      simp only [Bool.true_and, Bool.not_eq_true', Bool.or_eq_false_iff, decide_eq_false_iff_not]
+      exact ⟨⟨by omega, by omega⟩, by omega⟩
     rw [if_neg (by rw [this]; simp)]; exact h
   · intro pd h; split at h
     · cases h
